@@ -29,6 +29,11 @@ Definition parse_method (s : string) : option cmethod :=
   else if String.eqb s "scipy" then Some MScipy
   else None.
 
+(* the three accepted method strings, named (files that cannot import String's notations state theorems with these) *)
+Definition m_numpy_solver : string := "numpy_solver".
+Definition m_numpy : string := "numpy".
+Definition m_scipy : string := "scipy".
+
 Inductive cerr := ValueError | LinAlgError.
 
 Record oracles := {
